@@ -64,3 +64,10 @@ wasm_bindgen_test::wasm_bindgen_test_configure!(run_in_browser);
 
 #[cfg(feature = "uniffi")]
 uniffi::setup_scaffolding!();
+
+/// Verification hooks: compiled only with `--cfg eigerco_lumina_verif` (see /verif).
+#[cfg(eigerco_lumina_verif)]
+#[doc(hidden)]
+pub mod verif {
+    pub use crate::validator_set::ValidatorSetExt;
+}
